@@ -285,14 +285,14 @@ class SimMap(BaseMap):
     def nodes_closeto(self, loc, max_dist=None, max_elmt=None):
         ans = self._call("nodes_closeto", (tuple(loc), max_dist, max_elmt),
                          lambda: self.backend.nodes_closeto(loc, max_dist=max_dist, max_elmt=max_elmt), False)
-        if self.calls == 1:
+        if self.start_query is None:      # the first spatial query of the operation
             self.start_query = ("nodes", tuple(loc), max_dist, list(ans))
         return ans
 
     def edges_closeto(self, loc, max_dist=None, max_elmt=None):
         ans = self._call("edges_closeto", (tuple(loc), max_dist, max_elmt),
                          lambda: self.backend.edges_closeto(loc, max_dist=max_dist, max_elmt=max_elmt), False)
-        if self.calls == 1:
+        if self.start_query is None:      # the first spatial query of the operation
             self.start_query = ("edges", tuple(loc), max_dist, list(ans))
         return ans
 
